@@ -5,7 +5,7 @@ import logging
 import weakref
 from typing import TYPE_CHECKING
 
-from claripy import Or, backends
+from claripy import Or, backends, false
 from claripy.ast import Base
 from claripy.errors import BackendError, UnsatError
 
@@ -286,6 +286,8 @@ class CompositeFrontend(ConstrainedFrontend):
                 try:
                     if any(backends.concrete.convert(c) is False for c in set_constraints):
                         self._unsat = True
+                        # keep it in the constraint list as well, so that combine(), merge() and friends see it
+                        child_added.append(false())
                 except BackendError:
                     unsure.extend(set_constraints)
             else:
@@ -306,7 +308,9 @@ class CompositeFrontend(ConstrainedFrontend):
     #
 
     def _ensure_sat(self, extra_constraints):
-        if self._unsat or (len(extra_constraints) == 0 and not self.satisfiable()):
+        # the query below only consults the children that share variables with it, so the others (and the extra
+        # constraints' own children) have to be checked here
+        if self._unsat or not self.satisfiable(extra_constraints=extra_constraints):
             raise UnsatError("CompositeSolver is already unsat")
 
     def check_satisfiability(self, extra_constraints=(), exact=None):
@@ -510,4 +514,10 @@ class CompositeFrontend(ConstrainedFrontend):
         return True, merged
 
     def split(self):
-        return [s.branch() for s in self._solver_list]
+        parts = [s.branch() for s in self._solver_list]
+        if self._unsat:
+            # a concretely false constraint belongs to no child; without it the parts would be satisfiable together
+            unsat_part = self._template_frontend.blank_copy()
+            unsat_part.add([false()])
+            parts.append(unsat_part)
+        return parts
